@@ -53,6 +53,8 @@ func init() {
 		ruleR08j(c, "R08j", 10)
 		ruleRecognizersReportErrors(c, "R08l")
 		ruleQuotesOnlyTrimmed(c, "R08m")
+		ruleAmountOpsMatch(c, "R08n")
+		ruleR12h(c)
 		ruleR01f(c)
 	})
 	register("C12", propMeta{
